@@ -64,11 +64,14 @@ enum ObsOp {
   kCoAwaitAwait,
   kWait,
   kUnwrap,  // a continuation of another pipeline returns this SharedFuture (flattening must copy while others hold it)
+  kThenAsync,       // ThenInline with a value callback that returns a Future (skipped when the shared result is a failure)
+  kThenAsyncThrow,  // ThenInline with a Result callback returning a Future that throws instead
   kObsN
 };
 const char* const kObsName[] = {"Ready", "SubscribeInline", "Subscribe(e)", "ThenInline", "Then(e)", "Get const&", "copy",
                                 "drop-copy", "Share", "Share(e)", "Connect->Promise", "Connect->SharedPromise",
-                                "co_await sf", "co_await Await(sf)", "Wait", "returned from a continuation (unwrapping)"};
+                                "co_await sf", "co_await Await(sf)", "Wait", "returned from a continuation (unwrapping)",
+                                "ThenInline(value)->Future", "ThenInline(Result)->Future, throws"};
 
 struct Ctx {
   int pk = 0;
@@ -172,6 +175,7 @@ void Observer(Ctx& cx, SF sf, const SF& common, const std::vector<Op>& ops, yacl
   std::vector<SF> copies;
   std::vector<yaclib::Future<int, TErr>> outs;
   std::vector<yaclib::FutureOn<int, TErr>> outs_on;
+  std::vector<yaclib::Future<int, TErr>> outs_any;  // results not constrained (value, passed-through failure or thrown)
   std::vector<yaclib::Future<Pay, TErr>> pays;
   std::vector<yaclib::FutureOn<Pay, TErr>> pays_on;
   std::vector<SF> seconds;
@@ -275,6 +279,32 @@ void Observer(Ctx& cx, SF sf, const SF& common, const std::vector<Op>& ops, yacl
           return std::move(r).Ok();
         }));
         break;
+      case kThenAsync:
+        if (cx.pk == kSetValue) {
+          ++cx.expected;
+          ++cx.registered_now;
+        }
+        outs_any.push_back(use.ThenInline([&cx, guard](const Pay& v) {
+          guard.Use();
+          ++cx.fired;
+          --cx.registered_now;
+          if (!cx.set_begun || v.Read() != 42) {
+            cx.Err("async value continuation of a SharedFuture saw a wrong value / ran early");
+          }
+          return yaclib::MakeFuture<int, TErr>(1);
+        }));
+        break;
+      case kThenAsyncThrow:
+        ++cx.expected;
+        ++cx.registered_now;
+        outs_any.push_back(use.ThenInline([&cx, guard](const R& r) -> yaclib::Future<int, TErr> {
+          guard.Use();
+          ++cx.fired;
+          --cx.registered_now;
+          Check(cx, r);
+          throw TExc{3};
+        }));
+        break;
       case kUnwrap:
         pays.push_back(yaclib::MakeFuture<void, TErr>().ThenInline([copy = use]() { return copy; }));
         break;
@@ -299,6 +329,9 @@ void Observer(Ctx& cx, SF sf, const SF& common, const std::vector<Op>& ops, yacl
     if (!r || std::move(r).Ok() != 1) {
       cx.Err("FutureOn derived from the SharedFuture lost its continuation's return value");
     }
+  }
+  for (auto& o : outs_any) {
+    (void)std::move(o).Get();
   }
   for (auto& p : pays) {
     R r = std::move(p).Get();
@@ -330,7 +363,7 @@ class Shared final : public vf::Family {
            "before Set) + 2..4 observer fibers, each with its own copy and a shared const reference, running a "
            "generated sequence of {Ready, SubscribeInline, Subscribe(e), ThenInline, Then(e), Get const&, copy, drop "
            "copy, Share, Share(e), Connect to Promise / SharedPromise, co_await sf, co_await Await(sf), Wait, returned from a "
-           "continuation (unwrapping), final Get&&} x executor kind x schedule tape; oracle = every registered callback/awaiter fires exactly once and "
+           "continuation (unwrapping), ThenInline returning a Future (value callback / throwing), final Get&&} x executor kind x schedule tape; oracle = every registered callback/awaiter fires exactly once and "
            "only after Set began, every value seen equals the set one and is alive (Tracked payload with checksum: "
            "moved-from / destroyed / torn reads flagged), Ready() => Touch() readable, Tracked and heap balance, no "
            "parked fiber; non-trivial = >= 2 observers and an observer operation executed while another callback was "
